@@ -94,7 +94,7 @@ def _run(args):
             continue
         res = info.get("res")
         detects = None
-        if solver == "coneqp" and I.get("thinPG"):
+        if I.get("thinPG"):
             try:
                 detects = solvedrv.chol2_first_factor_detects(I, kw.get("storage", "dense"))
             except Exception:
@@ -151,11 +151,11 @@ def report(ck, runs, verdict, props, pid_label):
             failed = sorted(k for k, val in cert.items() if val is False)
             c = r["cfg"]
             lonly = not (r.get("dims") or {}).get("q") and not (r.get("dims") or {}).get("s")
-            if r["solver"] == "coneqp" and r.get("thin") and lonly and c.get("kktsolver") in (None, "chol2"):
+            if r.get("thin") and lonly and c.get("kktsolver") in (None, "chol2") and not c.get("solver"):
                 # input class of a listed finding: kkt_chol2 on an exactly singular H + G'W^-2 G (rank([P; G]) < n)
-                ck.violation("coneqp|kkt_chol2|rank([P;G])<n|first-cholesky-%s-singularity" % (
+                ck.violation("kkt_chol2|rank([P;G])<n|first-cholesky-%s-singularity" % (
                                  "detects" if r.get("chol_detects") else "misses"),
-                             "%s with the chol2 KKT solver on a QP whose matrix [P; G] is rank deficient (A completes the rank): %s violated, "
+                             "%s with the chol2 KKT solver on a problem whose matrix [P; G] is rank deficient (A completes the rank): %s violated, "
                              "outcome %s" % (c.get("entry"), p, outc), r)
                 continue
             if c.get("solver") == "glpk" and p in ("PinfCert", "DinfCert"):
